@@ -10,9 +10,10 @@ import (
 
 // Violation is one finding of an engine run.
 type Violation struct {
-	Property string                 `json:"property"` // property whose monitor failed; "" for a pure model/impl disagreement
-	Kind     string                 `json:"kind"`     // monitor | correspondence | crash
-	Sig      string                 `json:"sig"`      // machine-readable signature (known-findings matching)
+	Property string                 `json:"property"`       // property whose monitor failed; "" for a pure model/impl disagreement
+	Also     []string               `json:"also,omitempty"` // further properties the same observation violates
+	Kind     string                 `json:"kind"`           // monitor | correspondence | crash
+	Sig      string                 `json:"sig"`            // machine-readable signature (known-findings matching)
 	Detail   string                 `json:"detail"`
 	Replay   map[string]interface{} `json:"replay"`
 }
